@@ -58,6 +58,36 @@ def oracle(seed, tier):
                 lines.append(q3("w%d" % wi, n3, d, [(4, 0, 0)] + [pr for pr in props if pr[0] == 2])); meta.append(("near",))
             lines.append(q3("w%d" % wi, p3, d, [(4, 0, 0)] + [pr for pr in props if pr[0] == 2])); meta.append(("near0",))
         lines.append("free w%d" % wi); meta.append(None)
+    # two worlds alive at once, the same 2-D point asked of one and then of the other (each world must answer along ITS OWN section: no state shared
+    # between worlds or between consecutive calls)
+    def block(name, wi, w, g, p, d, props):
+        p3, u = lift(w, g, p)
+        eps = 1e-6
+        near = []
+        for s in (-1, 1):
+            pp = [p[0] * (1 + s * eps) + s * eps, p[1]] if not g.spherical else [p[0] * math.cos(s * eps) - p[1] * math.sin(s * eps), p[0] * math.sin(s * eps) + p[1] * math.cos(s * eps)]
+            near.append(lift(w, g, pp)[0])
+        lines.append(q2(name, p, d, props)); meta.append(("2d", wi, p, d, props, u))
+        lines.append(q3(name, p3, d, props)); meta.append(("3d",))
+        for n3 in near:
+            lines.append(q3(name, n3, d, [(4, 0, 0)] + [pr for pr in props if pr[0] == 2])); meta.append(("near",))
+        lines.append(q3(name, p3, d, [(4, 0, 0)] + [pr for pr in props if pr[0] == 2])); meta.append(("near0",))
+    interleaved = 0
+    for wi in range(0, len(worlds) - 1, 2):
+        (pa, wa, ga), (pb, wb, gb) = worlds[wi], worlds[wi + 1]
+        if ga.spherical != gb.spherical:
+            continue
+        lines.append("world ia %s -" % pa); meta.append(None)
+        lines.append("world ib %s -" % pb); meta.append(None)
+        for (first, second, wsecond, wj) in (("ia", "ib", (wb, gb), wi + 1), ("ib", "ia", (wa, ga), wi)):
+            w2, g2 = wsecond
+            for (p, d) in g2.queries2d(w2, budget(tier, 4, 8)):
+                props = g2.props(5, grains_k=(0, 1, 2, 3))
+                lines.append(q2(first, p, d, props)); meta.append(("warm",))
+                block(second, wj, w2, g2, p, d, props)
+                interleaved += 1
+        lines.append("free ia"); meta.append(None)
+        lines.append("free ib"); meta.append(None)
     # worlds without cross section refuse
     nocross = gen_worlds(rng, wdir, "n", budget(tier, 5, 30), {"with_random": False, "with_cross": False, "with_lines": True})
     for wi, (path, w, g) in enumerate(nocross):
@@ -112,7 +142,7 @@ def oracle(seed, tier):
                     bad("block of request %s differs: 2-D %r, 3-D %r" % (pr, x2[:4], x3[:4]))
         if len(samples) < 3:
             samples.append({"world": path, "point2d": p, "depth": d, "lifted": lines[i - 4].split()[2:5], "answer2d": out[i - 5][:120]})
-    return {"violations": trim_violations(viol, 20), "summary": {"cases": cases, "violations": len(viol), "nontrivial": nontriv}, "samples": samples}
+    return {"violations": trim_violations(viol, 20), "summary": {"cases": cases, "violations": len(viol), "nontrivial": nontriv, "interleaved_two_world_queries": interleaved}, "samples": samples}
 
 
 def replay(rp):
